@@ -312,17 +312,18 @@ Bases(cmd) ==
       [] cmd = "updatekadid" -> {<<TOK_KADID>>, <<TOK_KADID + CUT>>}
       [] OTHER -> {<<>>, Seq1(1, 5)}
 
-ReplBytes == IF Level >= 2 THEN {0, 1, 2, 64, 127, 128, 252, 253, 254, 255} ELSE {0, 2, 128, 253, 255}
+ReplBytes == IF Level >= 2 THEN {0, 1, 2, 64, 127, 128, 252, 253, 254, 255} ELSE {0, 2, 253, 255}
 SetAt(bs, i, x) == [bs EXCEPT ![i] = x]
 Win(bs, i, w) == [j \in 1..Len(bs) |-> IF j >= i /\ j < i + w /\ bs[j] < 256 THEN 255 ELSE bs[j]]
 \* positions whose byte is replaced: everything for short payloads, the first 60 and the last 24 otherwise
-Positions(bs) == {i \in 1..Len(bs) : bs[i] < 256 /\ (Len(bs) <= 120 \/ i <= 60 \/ i > Len(bs) - 24)}
-Cuts(bs) == {i \in 0..(Len(bs) - 1) : Len(bs) <= 120 \/ i <= 60 \/ i > Len(bs) - 24 \/ i % 44 = 8 \/ i % 32 = 5}
+Wide == IF Level >= 2 THEN 120 ELSE 90
+Positions(bs) == {i \in 1..Len(bs) : bs[i] < 256 /\ (Len(bs) <= Wide \/ i <= Wide \div 2 \/ i > Len(bs) - 24)}
+Cuts(bs) == {i \in 0..(Len(bs) - 1) : Len(bs) <= Wide \/ i <= Wide \div 2 \/ i > Len(bs) - 24 \/ i % 44 = 8 \/ i % 32 = 5}
 
 Do(kind, f) == /\ phase' = phase
                /\ LET res == ReadMessage(f) IN
                   act' = [name |-> "Read", kind |-> kind, frame |-> f, res |-> res.r, out |-> res.out, req |-> res.req,
-                          dres |-> ReadMessageDesign(f).r]
+                          dres |-> IF f.cmd \in {"addr", "offline"} THEN ReadMessageDesign(f).r ELSE res.r]
 
 Init == phase = "run" /\ act = [name |-> "Init"]
 Next == \/ \E cmd \in Cmds : \E b \in Bases(cmd) :
